@@ -14,8 +14,8 @@
   * Python dicts are association lists with Python's ordering rules (`aset`: replace in place or
     append; `adel`: remove), so that the driver can print the very iteration order the real views
     show. Python sets (`__reverse[acckey]`) are duplicate-free lists (order unobservable).
-  * `Store._replace`'s "only update if really changed" test with Python's `==` (`veq`): a value
-    that compares equal to the stored one is *not* stored (`True == 1`!) — see finding C17/F1;
+  * `Store._replace` assigns unconditionally (kopf 5068b98; before it a value `==` to the stored
+    one was not stored: the repaired finding C17-F1);
   * `OperatorIndexer.replace` (non-mapping result ↦ `{None: result}`), `OperatorIndexers.replace`
     (two loops: outcomes → discard on exception / replace on a non-None result / nothing on None;
     then every indexer *absent from the outcomes* discards), `OperatorIndexers.discard`.
@@ -103,28 +103,23 @@ def Index.discard (o : O) (keys : Option (List K)) (ix : Index K V O) : Option (
       | none => none
       | some r => if r.isEmpty then some { ix' with reverse := adel o ix'.reverse } else some ix'
 
-/-- `Store._replace(acckey, obj)`: "only update if really changed" — `veq` is Python's `==`:
-    `if acckey not in self.__items or self.__items[acckey] != obj: self.__items[acckey] = obj`.
-    So a new value that *compares equal* to the stored one (`True == 1`, `0.0 == False`) is dropped
-    and the stored one survives. -/
-def Store.replace (veq : V → V → Bool) (o : O) (v : V) (st : Store O V) : Store O V :=
-  match aget o st with
-  | some v' => if veq v' v then st else aset o v st
-  | none => aset o v st
+/-- `Store._replace(acckey, obj)`: `self.__items[acckey] = obj` — always the latest value
+    (kopf 5068b98; an existing key keeps its position). -/
+def Store.replace (o : O) (v : V) (st : Store O V) : Store O V := aset o v st
 
 /-- The `for obj_key, obj_val in obj.items():` loop of `Index._replace` on (items, reverse-set). -/
-def replaceLoop (veq : V → V → Bool) (o : O) :
+def replaceLoop (o : O) :
     List (K × V) → List (K × Store O V) × List K → List (K × Store O V) × List K
   | [], acc => acc
   | (k, v) :: rest, (items, rev) =>
     let st := match aget k items with | some st => st | none => []   -- `except KeyError: Store()`
-    replaceLoop veq o rest (aset k (Store.replace veq o v st) items, sadd k rev)
+    replaceLoop o rest (aset k (Store.replace o v st) items, sadd k rev)
 
 /-- `Index._replace(acckey, obj)` -/
-def Index.replace (veq : V → V → Bool) (o : O) (m : List (K × V)) (ix : Index K V O) :
+def Index.replace (o : O) (m : List (K × V)) (ix : Index K V O) :
     Option (Index K V O) :=
   let rev0 := match aget o ix.reverse with | some r => r | none => []  -- `except KeyError: set()`
-  let r := replaceLoop veq o m (ix.items, rev0)
+  let r := replaceLoop o m (ix.items, rev0)
   let ix1 : Index K V O := { items := r.1, reverse := aset o r.2 ix.reverse }
   -- `self._discard(acckey, reverse - set(obj.keys()))`
   ix1.discard o (some (r.2.filter (fun k => !(m.map Prod.fst).contains k)))
@@ -283,18 +278,18 @@ def foldUpd (f : Id → Index (Option K) V O → Option (Index (Option K) V O)) 
     | some ix' => foldUpd f rest (upd ixs i ix')
 
 /-- the body of the first loop of `OperatorIndexers.replace` for one outcome. -/
-def applyOutcome (veq : V → V → Bool) (o : O) (out : Outcome K V) (ix : Index (Option K) V O) :
+def applyOutcome (o : O) (out : Outcome K V) (ix : Index (Option K) V O) :
     Option (Index (Option K) V O) :=
   if out.exception then ix.discard o none
   else match out.result with
-    | some m => ix.replace veq o m
+    | some m => ix.replace o m
     | none => some ix
 
 /-- body of `for id, outcome in outcomes.items():` -/
-def loop1 (veq : V → V → Bool) (o : O) (outs : List (Id × Outcome K V)) (i : Id)
+def loop1 (o : O) (outs : List (Id × Outcome K V)) (i : Id)
     (ix : Index (Option K) V O) : Option (Index (Option K) V O) :=
   match aget i outs with
-  | some out => applyOutcome veq o out ix
+  | some out => applyOutcome o out ix
   | none => some ix
 
 /-- body of `for id, indexer in self.items(): if id not in outcomes: indexer.discard(key)` -/
@@ -303,9 +298,9 @@ def loop2 (o : O) (outs : List (Id × Outcome K V)) (i : Id) (ix : Index (Option
   if (aget i outs).isSome then some ix else ix.discard o none
 
 /-- `OperatorIndexers.replace(body, outcomes)`; `ids` = the keys of `self` in order. -/
-def replaceAll (veq : V → V → Bool) (ids : List Id) (o : O) (outs : List (Id × Outcome K V))
+def replaceAll (ids : List Id) (o : O) (outs : List (Id × Outcome K V))
     (ixs : Id → Index (Option K) V O) : Option (Id → Index (Option K) V O) :=
-  match foldUpd (loop1 veq o outs) (outs.map Prod.fst) ixs with
+  match foldUpd (loop1 o outs) (outs.map Prod.fst) ixs with
   | none => none
   | some ixs1 => foldUpd (loop2 o outs) ids ixs1
 
@@ -318,7 +313,7 @@ def discardAll (ids : List Id) (o : O) (ixs : Id → Index (Option K) V O) :
 def hstateOf (now : Nat) (mem : Id → Option HState) (i : Id) : HState := HState.ofOpt now (mem i)
 
 /-- The indexing part of `process_resource_event` for one event. -/
-def step (veq : V → V → Bool) (cfg : List (Indexer Id Res L)) (defaultBackoff : Nat)
+def step (cfg : List (Indexer Id Res L)) (defaultBackoff : Nat)
     (s : State Id K V O) (e : Event Id Res L K V O) : Option (State Id K V O) :=
   let ids := cfg.map (·.id)
   -- `if raw_type == 'DELETED': await memories.forget(raw_body)`
@@ -334,7 +329,7 @@ def step (veq : V → V → Bool) (cfg : List (Indexer Id Res L)) (defaultBackof
     let todo := sel.filter (fun c => (hstateOf e.t (s.mem e.obj) c.id).awake e.t)
     let outs : List (Id × Outcome K V) :=
       todo.map (fun c => (c.id, execOne c defaultBackoff e.t (hstateOf e.t (s.mem e.obj) c.id) (e.script c.id)))
-    match replaceAll veq ids e.obj outs s.ixs with
+    match replaceAll ids e.obj outs s.ixs with
     | none => none
     | some ixs' =>
       -- `state.with_handlers(sel).with_outcomes(outcomes).without_successes()`
@@ -345,13 +340,13 @@ def step (veq : V → V → Bool) (cfg : List (Indexer Id Res L)) (defaultBackof
                   else s.mem e.obj i
       some ⟨ixs', upd s.mem e.obj memo⟩
 
-def run (veq : V → V → Bool) (cfg : List (Indexer Id Res L)) (defaultBackoff : Nat) :
+def run (cfg : List (Indexer Id Res L)) (defaultBackoff : Nat) :
     State Id K V O → List (Event Id Res L K V O) → Option (State Id K V O)
   | s, [] => some s
   | s, e :: es =>
-    match step veq cfg defaultBackoff s e with
+    match step cfg defaultBackoff s e with
     | none => none
-    | some s' => run veq cfg defaultBackoff s' es
+    | some s' => run cfg defaultBackoff s' es
 
 end Step
 
@@ -368,18 +363,6 @@ def lastval {κ ν : Type} [DecidableEq κ] (k : κ) : List (κ × ν) → Optio
     match lastval k r with
     | some x => some x
     | none => if k' = k then some v else none
-
-/-- What `Store._replace` keeps when asked to store `new` over `old`. -/
-def keepOld {ν : Type} (veq : ν → ν → Bool) (old : Option ν) (new : ν) : ν :=
-  match old with
-  | some v' => if veq v' new then v' else new
-  | none => new
-
-/-- The value under key `k` after merging the mapping `m` over a stored value `cur`
-    (pairs in order, each compared against what is stored at that moment). -/
-def foldVal {κ ν : Type} [DecidableEq κ] (veq : ν → ν → Bool) (k : κ) : List (κ × ν) → Option ν → Option ν
-  | [], cur => cur
-  | (k', v) :: r, cur => foldVal veq k r (if k' = k then some (keepOld veq cur v) else cur)
 
 /-- docs/indexing.rst as a table: what one call does to the object's entry in the index. -/
 inductive Rule (K V : Type) where
@@ -410,9 +393,8 @@ def rule (c : Indexer Id Res L) (defaultBackoff : Nat) (now : Nat) (h : HState) 
 structure RefSt (K V : Type) where
   contrib : List (Option K × V)
   excl : Option HState
-  hist : List (List (Option K × V))   -- every mapping this function has returned for this object so far
 
-def RefSt.init {K V : Type} : RefSt K V := ⟨[], none, []⟩
+def RefSt.init {K V : Type} : RefSt K V := ⟨[], none⟩
 
 /-- One event, seen from one (index `c`, object `o`) pair. -/
 def refStep (cfg : List (Indexer Id Res L)) (defaultBackoff : Nat) (c : Indexer Id Res L) (o : O)
@@ -429,7 +411,7 @@ def refStep (cfg : List (Indexer Id Res L)) (defaultBackoff : Nat) (c : Indexer 
       else if c.exhausted h e.t then                           -- the budget is used up: permanent, no call
         { r with contrib := [], excl := some ⟨h.retries + 1, none, true, h.started⟩ }
       else match rule c defaultBackoff e.t h (e.script c.id) with
-        | .set m => ⟨m, none, m :: r.hist⟩
+        | .set m => ⟨m, none⟩
         | .keep => { r with excl := none }
         | .dropRetry d => { r with contrib := [], excl := some ⟨h.retries + 1, d.map (e.t + ·), false, h.started⟩ }
         | .dropForever => { r with contrib := [], excl := some ⟨h.retries + 1, none, true, h.started⟩ }
@@ -474,29 +456,6 @@ structure Index.ND (ix : Index K V O) : Prop where
   items : (ix.items.map Prod.fst).Nodup
   stores : ∀ k st, (k, st) ∈ ix.items → (st.map Prod.fst).Nodup
   reverse : (ix.reverse.map Prod.fst).Nodup
-
-/-- "stored value vs. latest documented value": equal, or the stored one is `==`-equal (`veq`) to
-    the latest one (`Store._replace` keeps the stored value then). -/
-def Rel (veq : V → V → Bool) : Option V → Option V → Prop
-  | none, none => True
-  | some v', some v => v' = v ∨ veq v' v = true
-  | _, _ => False
-
-/-- `Rel` with provenance: a stored value that differs from the latest one is an *older result*:
-    it occurs under the same key in a mapping the same function returned for the same object
-    earlier (`hist` = all those mappings). -/
-def RelH (veq : V → V → Bool) (hist : List (List (K × V))) (k : K) : Option V → Option V → Prop
-  | none, none => True
-  | some v', some v => v' = v ∨ (veq v' v = true ∧ ∃ m ∈ hist, (k, v') ∈ m)
-  | _, _ => False
-
-/-- No "`==`-twins" in an object's results: no two values that one index function returned for
-    one object under one key (at any two calls) are `==`-equal yet different (`1` and `True`,
-    `0` and `False`, `[1]` and `[True]`, …). This is a property of a HISTORY, satisfiable with
-    Python's real `==`; it excludes exactly the inputs on which `Store._replace`'s "only if really
-    changed" test can drop an update (finding C17-F1). -/
-def NoTwins (veq : V → V → Bool) (hist : List (List (K × V))) : Prop :=
-  ∀ m1 ∈ hist, ∀ m2 ∈ hist, ∀ k v1 v2, (k, v1) ∈ m1 → (k, v2) ∈ m2 → veq v1 v2 = true → v1 = v2
 
 end Vocabulary
 
